@@ -138,7 +138,7 @@ package interp
 //@   opt safety = off
 //@   ensures r == (a == aEqual || a == aNotEqual || a == aGreater || a == aGreaterEqual || a == aLower || a == aLowerEqual)
 //@ func (check typecheck) binaryExpr(n) (err)
-//@   props C03
+//@   props C03 C02 C12
 //@   opt safety = off
 //@   opt opaque-calls = *
 //@   opt opaque-havoc = none
